@@ -1,5 +1,5 @@
 (* C30 — RuntimeDialect with the standard table matches ChiaDialect.
-   Only statements here; every proof is `exact <lemma>` from Proofs/DialectC30.v.
+   Only statements here; every proof is `exact <lemma>` from Proofs/DialectC30.v, DialectLimits.v, DialectC30All.v.
 
    Models: Model/Dialect.v [runtime_dialect] (runtime_dialect.rs + the standard operator-name
    table of f_table.rs, quote 1, apply 2) and [chia_dialect] (chia_dialect.rs), both over the
@@ -23,27 +23,25 @@
    g2_multiply) and never ENABLE_GC: C30_flags_unobservable, proved for every operator function
    either dispatch table can return (Proofs/DialectLimits.v, [flags_sim], [all_ops]).
 
-   Full statement: RuntimeDialect with flags F = ChiaDialect with F minus ENABLE_GC and
-   DISABLE_OP: same result, cost and error kind, for all programs, environments, budgets, flag sets.
-   Proved:
-   * C30_run_all / C30_run_words - for EVERY flag set F that does not contain DISABLE_OP without
-     NEW_COST_MODEL (in particular every F without DISABLE_OP, with or without ENABLE_GC, LIMITS,
-     NEW_COST_MODEL: the former premise [dialect_flags flags = flags] is gone), every primitives
-     record, fuel, program, environment and budget. C30_run_words is the same on 32-bit flag words
-     and the extraction entry points run_runtime / run_chia.
-   * C30_minus_disable_op_refuted - on the remaining class (DISABLE_OP without NEW_COST_MODEL)
-     the statement read as "ChiaDialect built WITHOUT DISABLE_OP" is false: op_div, op_divmod and
-     op_mod themselves read DISABLE_OP (dividend longer than 2048 bytes is rejected), and
-     RuntimeDialect hands the bit to them: (/ (q . 0x01^2049) (q . 3)) fails with InvalidOpArg on
-     RuntimeDialect{DISABLE_OP} and succeeds with cost 29709 on ChiaDialect{}. Reproduced on the
-     implementation by lib/props/c30.py (probe "disable_op_div").
-   * C30_run_minus_gc - for EVERY flag set F without exception: RuntimeDialect F = ChiaDialect
-     (F minus ENABLE_GC) [DISABLE_OP kept], the barrier additionally closing opcode 60 under
-     DISABLE_OP without NEW_COST_MODEL (ChiaDialect's dispatch disables modpow there, RuntimeDialect
-     does not: C30_modpow_disabled_differs).
-   * C30_run - the same flag record on both sides, for every flag set without ENABLE_GC and
-     DISABLE_OP (the statement read as "flag sets minus ENABLE_GC and DISABLE_OP"): whole, no
-     further premise on the flags.
+   Full statement: same result, cost and error kind as ChiaDialect "with the same flags minus
+   ENABLE_GC and DISABLE_OP", for all programs, environments, budgets and flag sets.
+   * Read as "both dialects built with the same flag set F, F containing neither ENABLE_GC nor
+     DISABLE_OP": C30_run, whole - every such F (with or without LIMITS, NEW_COST_MODEL, ...; the
+     former premise [dialect_flags flags = flags] is gone), every primitives record, fuel, program,
+     environment and budget.
+   * Read as "RuntimeDialect{F} against ChiaDialect{F minus ENABLE_GC and DISABLE_OP}", F any flag
+     set: C30_run_all proves it for every F that has NEW_COST_MODEL or lacks DISABLE_OP (ENABLE_GC
+     free); C30_run_words is the same on 32-bit flag words and the extraction entry points
+     run_runtime / run_chia. On the remaining class (DISABLE_OP without NEW_COST_MODEL) it is
+     FALSE, C30_minus_disable_op_refuted: op_div, op_divmod and op_mod themselves read DISABLE_OP
+     (a dividend longer than 2048 bytes is rejected) and RuntimeDialect hands the bit to them:
+     (/ (q . 0x01^2049) (q . 3)) fails with InvalidOpArg on RuntimeDialect{DISABLE_OP} and succeeds
+     with cost 29709 on ChiaDialect{}. Reproduced on the implementation by lib/props/c30.py (probe
+     "disable_op_div").
+   * C30_run_minus_gc - for EVERY flag set F without exception: RuntimeDialect{F} =
+     ChiaDialect{F minus ENABLE_GC} [DISABLE_OP kept], the barrier additionally closing opcode 60
+     under DISABLE_OP without NEW_COST_MODEL (ChiaDialect's dispatch disables modpow there,
+     RuntimeDialect's does not: C30_modpow_disabled_differs).
    C30_dispatch is the opcode-level fact; C30_tables the table-level one. *)
 From Clvm Require Import Model.Dialect Proofs.DialectContracts Proofs.DialectC30 Proofs.DialectLimits Proofs.DialectC30All.
 Open Scope N_scope.
